@@ -123,6 +123,8 @@ def run_harness(job):
         cmd += ["--shard", shard]
     if spec.get("_panic_ok"):
         cmd += ["--panic-ok"]
+    if tier in spec.get("partial", ()):
+        cmd += ["--partial-ok", "--random-order"]
     env = dict(ENV_BASE, PYTHONPATH=VERIF)
     t0 = time.time()
     try:
@@ -276,7 +278,8 @@ def main():
             results.append(r)
 
     # ---- aggregate ---------------------------------------------------------
-    inconclusive = [r for r in results if r["status"] != "complete"]
+    inconclusive = [r for r in results if r["status"] not in ("complete", "partial")]
+    partial = [r for r in results if r["status"] == "partial"]
     replay_dir = os.path.join(VERIF, "evidence", "replays")
     os.makedirs(replay_dir, exist_ok=True)
     for f in os.listdir(replay_dir):
@@ -397,7 +400,8 @@ def main():
                     "not syntactically true, i.e. needed a solver query over all values on that path.",
             "explanation": prop.get("claim", ""),
             "technique": "bounded symbolic execution of rustc MIR (mirdump+mirsym) with z3; counterexamples replayed natively",
-            "status": status,
+            "status": status + ("-partial" if partial and status == "held" else ""),
+            "partially_explored_shards": ["%s[%s]: %s" % (r["harness"], r["_shard"], r.get("reason", "")) for r in partial],
             "bounds": {r["harness"] + ("[" + r["_shard"] + "]" if r["_shard"] else ""): r.get("params", {}) for r in results},
             "bounds_text": prop.get("bounds", {}).get(tier, ""),
             "outside": prop.get("outside", ""),
@@ -436,6 +440,9 @@ def main():
         e = next((e for e in known_entries if e["class"] == cls), {})
         print("KNOWN-FINDING: property=%s %s [class %s; %d path(s); e.g. replay=%s]" % (
             pid, e.get("what", cls), cls, sum(r["paths"] for r in recs), recs[0]["replay"]))
+    for r in partial:
+        print("PARTIAL harness=%s shard=%s: %d paths decided, then %s" % (r["harness"], r.get("_shard", ""), r.get("paths", 0),
+                                                                       r.get("reason", "")[:300]))
     for r in inconclusive:
         print("INCONCLUSIVE harness=%s shard=%s: %s" % (r["harness"], r.get("_shard", ""), r.get("reason", "")[:1500]))
     for r in not_reproduced:
